@@ -6,18 +6,17 @@ import json, os, subprocess, sys
 root = os.path.dirname(os.path.dirname(os.path.abspath(__file__)))
 suffix = sys.argv[1]
 FILES = [
-    ("cfgrammar/src/lib/yacc/parser.rs (the declarations part: parse_declarations and what it calls)", "F01"),
-    ("cfgrammar/src/lib/yacc/parser.rs (the rules / actions / programs part: parse_rules, parse_rule, parse_action, parse_programs, parse_ws, names and tokens)", "F02"),
-    ("cfgrammar/src/lib/yacc/ast.rs", "F03"),
-    ("cfgrammar/src/lib/header.rs", "F04"),
-    ("cfgrammar/src/lib/markmap.rs", "F05"),
-    ("lrpar/src/lib/diagnostics.rs", "F06"),
-    ("lrlex/src/lib/ctbuilder.rs", "F07"),
-    ("lrlex/src/lib/lexer.rs", "F08"),
-    ("lrtable/src/lib/stategraph.rs and lrtable/src/lib/mod.rs", "F09"),
-    ("lrlex/src/lib/mod.rs, lrlex/src/lib/defaults.rs, lrpar/src/lib/lex_api.rs and lrpar/src/lib/mod.rs", "F10"),
-    ("cfgrammar/src/lib/span.rs, cfgrammar/src/lib/newlinecache.rs and cfgrammar/src/lib/yacc/follows.rs", "F11"),
-    ("cfgrammar/src/lib/yacc/grammar.rs (anything except the precedence loop, the size guards, rule_min_costs / rule_max_costs and the sentence generator, which earlier rounds used)", "F12"),
+    ("lrpar/src/lib/ctbuilder.rs (the code generation half: gen_parse_function, gen_rule_consts, gen_token_epp, gen_wrappers, gen_user_actions, user_start_ridx and what they call)", "G01"),
+    ("lrpar/src/lib/ctbuilder.rs (the builder half: the setter methods, build, build_to_output_path up to the point where code is generated, header / %grmtools handling, output_file, rebuild_cache)", "G02"),
+    ("lrlex/src/lib/parser.rs (regular expressions and escapes: parse_rule's expression part, unescape and its helpers)", "G03"),
+    ("lrlex/src/lib/parser.rs (declarations, start states, <..> prefixes and target states, rule names, the %grmtools section of .l files)", "G04"),
+    ("lrtable/src/lib/statetable.rs", "G05"),
+    ("lrpar/src/lib/parser.rs", "G06"),
+    ("lrpar/src/lib/cpctplus.rs and lrpar/src/lib/dijkstra.rs", "G07"),
+    ("cfgrammar/src/lib/yacc/grammar.rs (the constructor new_from_ast_with_validity_info: rule / production / token tables, Eco implicit tokens, the start rule, %epp, %avoid_insert, action and type tables - and the accessor methods)", "G08"),
+    ("lrtable/src/lib/pager.rs and lrtable/src/lib/itemset.rs", "G09"),
+    ("cfgrammar/src/lib/yacc/firsts.rs, cfgrammar/src/lib/idxnewtype.rs and cfgrammar/src/lib/mod.rs", "G10"),
+    ("lrlex/src/lib/lexer.rs (Rule::new and the regex builder flags, LRNonStreamingLexerDef::from_rules / set_rule_ids / set_rule_ids_spanned, LRNonStreamingLexer's span and line/column methods - not the lexing loop's push/pop/replace handling)", "G11"),
 ]
 props = [json.loads(l) for l in open(os.path.join(root, 'properties.jsonl'))]
 taken = []
